@@ -362,6 +362,8 @@ func (in *Inferer) expr(e Expr, env *tenv) *Ty {
 	switch v := e.(type) {
 	case IntLit:
 		return TInt
+	case IntSrc:
+		return TInt
 	case StrLit, StrSrc, RawStr, Interp:
 		return TString
 	case BoolLit:
